@@ -358,7 +358,8 @@ def data_op(rng, q, sigs, cls=None):
         return "fsr %d %d" % (gid, n), "fsr_" + cls
     if kind == "ann" and pay >= 1:
         gid = rng.choice(sigs)[0] if sigs else 0
-        return "ann %d %d %d" % (gid, rng.randrange(0, 5000), pay - 1), "ann_" + cls
+        # the data_size passed for the string varies (n+1, 0, n, n/2): the library must take strlen + 1 in every case
+        return "ann %d %d %d %d" % (gid, rng.randrange(0, 5000), pay - 1, rng.choice([0, 0, 1, 2, 3])), "ann_" + cls
     return "ud %d %d" % (rng.randrange(0, 4096), pay), "ud_" + cls
 
 
